@@ -159,7 +159,7 @@ type Obs struct {
 	Net    rb.B      `json:"net"`    // rlp.EncodeToBytes of the decoded transaction
 	Size   int       `json:"size"`   // Size()
 	Pre    rb.B      `json:"pre"`    // MarshalBinary(WithoutBlobTxSidecar())
-	HashOK bool      `json:"hashok"` // Hash() == keccak(pre) and the sidecar-free copy has the same hash
+	HashOK bool      `json:"hashok"` // Hash() == keccak(pre), same for the sidecar-free copy and a cache-free re-decoding; EncodeIndex == MarshalBinary
 	NoScSz int       `json:"noscsz"` // WithoutBlobTxSidecar().Size()
 	JSON   string    `json:"json"`   // "ok": round trip kept hash and fields; "skip": UnmarshalJSON refused the (invalid) values; else the problem
 	Err    string    `json:"-"`
@@ -193,6 +193,10 @@ func observe(tx *types.Transaction) Obs {
 	fresh := new(types.Transaction)
 	ferr := fresh.UnmarshalBinary(bin)
 	o.HashOK = tx.Hash() == want && nosc.Hash() == want && ferr == nil && fresh.Hash() == want
+	// the encoding used for the transaction trie (DeriveSha) is the binary envelope
+	var idx bytes.Buffer
+	types.Transactions{tx}.EncodeIndex(0, &idx)
+	o.HashOK = o.HashOK && bytes.Equal(idx.Bytes(), bin)
 	// JSON
 	js, err := tx.MarshalJSON()
 	if err != nil {
